@@ -1013,7 +1013,8 @@ func c20BatteryWorlds() []*World {
 				cb := Obj{{"type", "object"}, {"properties", Obj{{"cb_" + tag + "_sa", str}}}}
 				return obj(Obj{{"mk_" + tag, str}, {tag + "r1", Obj{{"$ref", "#/$defs/Shared"}}}},
 					Obj{def(tag, "SharedA"), def(tag, "SharedB"),
-						def(tag, "Shared", KV{"sharedany", Obj{{"anyOf", []any{Obj{{"$ref", "#/$defs/SharedA"}}, Obj{{"$ref", "#/$defs/SharedB"}}, cb}}}})}, f.ID)
+						def(tag, "Shared", KV{"sharedany", Obj{{"anyOf", []any{Obj{{"$ref", "#/$defs/SharedA"}}, Obj{{"$ref", "#/$defs/SharedB"}}, cb}}}},
+							KV{"sharedkind", Obj{{"type", "string"}, {"enum", []any{"active", "inactive"}}}})}, f.ID)
 			}, []string{"SharedA", "SharedB", "Shared"}, nil)
 		}
 		t0, t1 := mk("t0", 1), mk("t1", 2)
